@@ -200,6 +200,16 @@ let () =
                   pr ") ";
                   (match fin with SDone -> pr "done" | SErr x -> pexn x | SDiv -> pr "div");
                   pr ")")
+             | L [A "peg"] ->
+               (* the reference reading on the tab-expanded input, with the class memberships *)
+               let s' = if ba kt then input else expandtabs input in
+               let inc = in_class g root && env_in_class g in
+               let inr = in_ref_class g root && env_in_ref_class g in
+               pr "(peg "; pr (if inc then "1 " else "0 "); pr (if inr then "1 " else "0 ");
+               (match peg g s' fuel root O with
+                | Model.POk0 (l, ts) -> pr "(ok "; pint (int_of_nat l); pr " ("; List.iteri (fun i t -> if i > 0 then pr " "; ptok t) ts; pr "))"
+                | PFail -> pr "fail" | Model.PDiv0 -> pr "div" | POut -> pr "out");
+               pr ")"
              | _ -> failwith "entry")
           | _ -> failwith "case"
         with
